@@ -278,6 +278,14 @@ func (cc *checkCtx) discharge(quiet bool) {
 				if r.Answer != Unsat {
 					r = Solve(q, cc.timeout, cc.seed, nil)
 				}
+			} else if o.Expect == Sat {
+				// vacuity guard: only a proof of inconsistency (unsat) fails it, and with quantified preconditions the
+				// solvers rarely exhibit a model; a short limit is enough to catch a contradictory contract
+				vt := cc.timeout
+				if vt > 15 {
+					vt = 15
+				}
+				r = Solve(q, vt, cc.seed, nil)
 			} else {
 				r = Solve(q, cc.timeout, cc.seed, nil)
 			}
